@@ -1,13 +1,18 @@
 #!/bin/sh
 # runs every seeded change against the check of the property it targets (and extra checks
 # given after the name in seeded/EXTRA), writes seeded/RESULTS.md
+# usage: tools/run_seeded.sh            all seeded changes, rewrites RESULTS.md
+#        tools/run_seeded.sh C03_A2 …  only these, appended to RESULTS.md
 OUT=/verif/seeded/RESULTS.md
-echo "# Seeded changes vs checks (tools/run_seeded.sh, scratch copies of /repo)" > $OUT
-echo "" >> $OUT
-echo "| seeded change | property | title | checks run -> result |" >> $OUT
-echo "|---|---|---|---|" >> $OUT
-for D in /verif/seeded/C*_*; do
-  N=$(basename $D); P=${N%_*}
+if [ $# -eq 0 ]; then
+  echo "# Seeded changes vs checks (tools/run_seeded.sh, scratch copies of /repo)" > $OUT
+  echo "" >> $OUT
+  echo "| seeded change | property | title | checks run -> result |" >> $OUT
+  echo "|---|---|---|---|" >> $OUT
+  set -- $(cd /verif/seeded && ls -d C*_*)
+fi
+for N in "$@"; do D=/verif/seeded/$N
+  P=${N%_*}
   EXTRA=$(grep "^$N " /verif/seeded/EXTRA 2>/dev/null | cut -d' ' -f2-)
   T=$(python3 -c "import json;print(json.load(open('$D/meta.json')).get('title','')[:110].replace('|','/'))")
   RES=""
